@@ -143,7 +143,7 @@ func (g *gen) genVal(c ColSpec) Val {
 			return strVal(smallAlphabet[r.Intn(len(smallAlphabet))])
 		}
 		pick := r.Intn(12)
-		if c.Merge == "concat" && pick == 1 {
+		if (c.Merge == "concat" || c.Merge == "short") && pick == 1 {
 			pick = 5 // merged results must stay below the 64KB limit of a stored string
 		}
 		switch pick {
@@ -239,6 +239,21 @@ func (g *gen) genSchema() {
 		if g.cs != nil && NewRng(g.cs.Seed, uint64(g.cs.Run), 81).Chance(0.25) {
 			kr := NewRng(g.cs.Seed, uint64(g.cs.Run), 83)
 			g.keys[kr.Intn(len(g.keys))] = ""
+		}
+	}
+	g.shortMerges()
+}
+
+// shortMerges turns some of the concatenating string merges into "keep the shorter one"
+// (own PRNG stream): a user merge whose result can be shorter than the delta.
+func (g *gen) shortMerges() {
+	if g.cs == nil {
+		return
+	}
+	mr := NewRng(g.cs.Seed, uint64(g.cs.Run), 86)
+	for i := range g.cols {
+		if g.cols[i].Kind == KString && g.cols[i].Merge == "concat" && mr.Chance(0.3) {
+			g.cols[i].Merge = "short"
 		}
 	}
 }
